@@ -385,3 +385,22 @@ struct LabelReferences {
     declaration: Option<TextRange>,
     references: Vec<TextRange>,
 }
+
+/// Verification hook (feature `verif-hooks`, off by default): entry count of every container
+/// of this index, so that tests can observe growth of indexed state.
+#[cfg(feature = "verif-hooks")]
+impl LuaReferenceIndex {
+    pub fn verif_sizes(&self) -> Vec<(&'static str, usize)> {
+        vec![
+            ("reference.file_references", self.file_references.len()),
+            ("reference.index_reference", self.index_reference.len()),
+            ("reference.index_reference.entries", self.index_reference.values().map(|m| m.values().map(|s| s.len()).sum::<usize>()).sum::<usize>()),
+            ("reference.global_references", self.global_references.len()),
+            ("reference.global_references.entries", self.global_references.values().map(|m| m.values().map(|s| s.len()).sum::<usize>()).sum::<usize>()),
+            ("reference.string_references", self.string_references.len()),
+            ("reference.type_references", self.type_references.len()),
+            ("reference.type_references.entries", self.type_references.values().map(|m| m.values().map(|s| s.len()).sum::<usize>()).sum::<usize>()),
+            ("reference.label_references", self.label_references.len()),
+        ]
+    }
+}
